@@ -128,6 +128,13 @@ def one_case(src, mexe, idx, seed, tier):
     bkeys = {t: [] for t in targets}
     nops = r.randint(8, 30 if tier == "quick" else 60)
     share_at = nops // 2 if r.random() < 0.6 and "ea_inode" not in name else -1
+    scripted = []
+    if (idx // len(CONFIGS)) % 2 == 1 and isz > 128:
+        sh, lg = r.choice([("zz", "bbbbbb"), ("bb", "dddd"), ("q", "aaaaaa"), ("mm", "mmm")])
+        pre = r.choice(["user.", "trusted.", "security."])
+        scripted = [("f", pre + sh, 8), ("f", pre + lg, 200), ("f", pre + sh, 300), ("g", pre + lg, 4), ("g", pre + sh, 250), ("g", pre + lg, 260)]
+        nops = max(nops, len(scripted) + 4)
+        share_at = -1 if share_at < len(scripted) else share_at
     for k in range(nops):
         if k == share_at:
             # two inodes share one attribute block (reference count 2), as the kernel arranges for identical attribute sets:
@@ -171,8 +178,16 @@ def one_case(src, mexe, idx, seed, tier):
         before = dict(spec[t])
         if kind < 0.62 and before and r.random() < 0.45:
             nm = r.choice(sorted(before))      # replace an existing attribute by one of another size class
+        forced_ln = None
+        if scripted:
+            # an attribute grows out of the inode body into a block that already holds a name up to five bytes longer
+            t, nm, forced_ln = scripted.pop(0)
+            kind = 0.0
+            before = dict(spec[t])
         if kind < 0.62:
             ln = r.choice([0, 1, 3, 4, 5, 16, 60, 61, 100, isz - 128 - 32 - 40, isz - 128 - 32 - 20, 300, bs // 2, bs - 80, bs - 52, bs - 36, bs + 100, 5000, 70000]) if r.random() < 0.8 else r.randint(0, 400)
+            if forced_ln is not None:
+                ln = forced_ln
             ln = min(max(0, ln), bs)          # debugfs ea_set -f reads at most one block of the value file
             val = r.randbytes(ln)
             open(vfile, "wb").write(val)
